@@ -16,6 +16,9 @@ def handleAmount (_D : Dev) : List String → Option String
     let e ← e.toInt?
     let k ← k.toNat?
     pure (two (fmtSpec n e k) (fmtF n e k))
+  | ["amt_lit"] =>
+    -- the written-out literal of C17 `lit1em8_close` next to what the binary64 model computes for 1e-08
+    some (two s!"{lit1em8.num}/{lit1em8.den}" s!"{(fDen (-8)).num}/{(fDen (-8)).den}")
   | ["f64", a] => do
     -- nearest double of a decimal string, as exact numerator/denominator (self-test of the model against CPython)
     let q ← parseDecimal a
